@@ -37,12 +37,11 @@ let pf_string = function
   | PFOk v -> "ok " ^ string_of_fnum v
   | PFErrSyntax -> "syntax"
   | PFErrUnderscore -> "underscore"
-  | PFErrRange v -> "range " ^ string_of_fnum v
 
 let handle = function
   | ["pf"; s] -> pf_string (parse_float (bytes_of_hex s))
   | ["pfp"; s] -> res_fnum (parse_float_prefix (bytes_of_hex s))
-  | ["trim"; s] -> "ok " ^ hex_of_bytes (trim_space (bytes_of_hex s))
+  | ["trim"; s] -> "ok " ^ hex_of_bytes (ascii_trim (bytes_of_hex s))
   | ["str"; x; f] -> res_bytes (num_to_str (bytes_of_hex f) (fnum_of_bits x))
   | ["vstr"; f; v] -> res_bytes (v_str (bytes_of_hex f) (value_of_string v))
   | ["vnum"; v] -> res_fnum (v_num (value_of_string v))
